@@ -21,6 +21,7 @@ type Clause struct {
 	Ord   int    // cut: ordinal of such block
 	Line  int
 	Name  string // optional label
+	Frames []ast.Expr // cut: slice ranges that bound what the section wrote
 }
 
 // Case is one contract of a function (a function may have several).
@@ -313,17 +314,44 @@ func ParseSpec(path string) (*Spec, error) {
 			if len(parts) != 2 {
 				return nil, fmt.Errorf("%s:%d: bad cut clause", path, rc.line)
 			}
-			bo := strings.SplitN(strings.TrimSpace(parts[0]), "#", 2)
+			// the head may carry "frame <targets>"; the first ':' outside brackets ends the head
+			head, body := rest, ""
+			depth := 0
+			for i := 0; i < len(rest); i++ {
+				switch rest[i] {
+				case '[', '(':
+					depth++
+				case ']', ')':
+					depth--
+				case ':':
+					if depth == 0 && body == "" {
+						head, body = rest[:i], strings.TrimSpace(rest[i+1:])
+						i = len(rest)
+					}
+				}
+			}
+			_ = parts
+			var frames []ast.Expr
+			if k := strings.Index(head, " frame "); k >= 0 {
+				for _, ft := range splitTop(head[k+7:], ',') {
+					fe, err := parseExpr(strings.TrimSpace(ft), rc.line)
+					if err != nil {
+						return nil, err
+					}
+					frames = append(frames, fe)
+				}
+				head = head[:k]
+			}
+			bo := strings.SplitN(strings.TrimSpace(head), "#", 2)
 			ord := 1
 			if len(bo) == 2 {
 				ord, _ = strconv.Atoi(bo[1])
 			}
-			body := strings.TrimSpace(parts[1])
 			e, err := parseExpr(body, rc.line)
 			if err != nil {
 				return nil, err
 			}
-			addClause(&Clause{Kind: "cut", Block: bo[0], Ord: ord, Text: body, Expr: e, Line: rc.line})
+			addClause(&Clause{Kind: "cut", Block: bo[0], Ord: ord, Text: body, Expr: e, Line: rc.line, Frames: frames})
 		default:
 			return nil, fmt.Errorf("%s:%d: unknown clause %q", path, rc.line, kw)
 		}
